@@ -475,7 +475,8 @@ def cfg_line(out, problem):
     spec = out["spec"]
     opts_in = dict(problem.get("options") or {})
     n = spec["nfree"]
-    g = lambda k, d: o.get(k, opts_in.get(k, d))
+    # what the USER asked for is the specification; the completed options only fill in what was not supplied
+    g = lambda k, d: opts_in[k] if k in opts_in else o.get(k, d)
     fsize = int(g("filter_size", sys.maxsize))
     hsize = int(g("history_size", sys.maxsize))
     return " ".join(str(t) for t in [
